@@ -37,6 +37,8 @@ func (o opJ) coq() string {
 		return fmt.Sprintf("Create %d%%nat", o.N)
 	case "stop":
 		return fmt.Sprintf("Stop %d%%nat", o.N)
+	case "setappended":
+		return fmt.Sprintf("SetAppended %s", vh.Z(o.V))
 	}
 	return "Reopen"
 }
@@ -173,6 +175,7 @@ func main() {
 		var ops []opJ
 		var obs []string
 		stoppedEver, afterConsume := false, false
+		stopped := map[int]int64{} // stopped groups: the consumed position their meta file holds
 		// mirror of positions for choosing meaningful operations
 		for step := 0; step < nOps || (hi < len(corpus) && step < len(corpus[hi])); step++ {
 			var o opJ
@@ -225,6 +228,24 @@ func main() {
 					} else {
 						o = opJ{K: "sync"}
 					}
+				case x < 80 && !big:
+					// the explicit index reset (a follower's log reset by its leader): mostly backwards, never below the
+					// stored position of a stopped group
+					lo := int64(-1)
+					for _, c := range stopped {
+						if c > lo {
+							lo = c
+						}
+					}
+					app := w.fq.Queue().AppendedSeq()
+					v := lo
+					if app > lo {
+						v = lo + int64(r.Intn(int(app-lo)+1))
+					}
+					if r.Chance(20) {
+						v = app + int64(r.Range(1, 3))
+					}
+					o = opJ{K: "setappended", V: v}
 				case x < 86:
 					o = opJ{K: "sync"}
 				case x < 90:
@@ -279,6 +300,8 @@ func main() {
 				if g, ok := w.groups[o.N]; ok {
 					g.SetConsumedSeq(o.V)
 				}
+			case "setappended":
+				w.fq.SetAppendedSeq(o.V)
 			case "sync":
 				w.fq.Sync()
 				if afterConsume {
@@ -293,16 +316,19 @@ func main() {
 						out.Violation(0, "create-group", err.Error(), nil)
 					} else {
 						w.groups[o.N] = g
+						delete(stopped, o.N)
 					}
 				}
 			case "stop":
-				if _, ok := w.groups[o.N]; ok {
+				if g, ok := w.groups[o.N]; ok {
+					stopped[o.N] = g.ConsumedSeq()
 					w.fq.StopConsumerGroup(gname(o.N))
 					delete(w.groups, o.N)
 					delete(w.paused, o.N)
 					stoppedEver = true
 				}
 			case "reopen":
+				stopped = map[int]int64{}
 				w.fq.Close()
 				if err := w.open(); err != nil {
 					out.Violation(0, "reopen", err.Error(), nil)
